@@ -156,6 +156,25 @@ CLAIMED = {
         'third-party meta-path finders and plugin read-only contracts are not decided.',
         'contract-based deductive verification (PyVC effects, frames on exceptional exits) + AST inventories',
         'DESIGN.md 6/C12'),
+    'C08': (
+        'Deductive coherence contracts with quantified invariants (unbounded): the parent-scope memo and the '
+        'definition-name memo are proved coherent - under "every entry equals the fresh computation" the result '
+        'equals the fresh computation and the invariant is preserved; path-less buffers bypass both caches; '
+        'inventory obligation over all of jedi/: the process-global mutable state is exactly the registered set; every '
+        'Script builds a fresh InferenceState owning all inference memo tables and drops expired time caches; the '
+        'signature-cache key can never be equal across calls. One known finding (completion_cache, F9).',
+        'Trusted: parso replaces a path\'s cache node on every re-parse and ties it to one tree version; '
+        'get_parent_scope / is_definition pure; diff-parser correctness is excluded by the property itself.',
+        'contract-based deductive verification (PyVC quantified cache invariants) + AST inventory', 'DESIGN.md 6/C08'),
+    'C09': (
+        'Deductive/structural on jedi\'s side of the property: the import memo (ModuleCache.add/get) is a plain map '
+        'owned by the per-Script inference state (proved), created empty per state; imported files are parsed with '
+        'their file_io and their code lines taken from that parse; files without given code are read from disk; the '
+        'helper restores sys.path; inventory: no other process-global store. One known finding (completion_cache, F9).',
+        'Trusted (this is where the property is actually decided): parso.cache mtime revalidation and importlib '
+        'FileFinder directory caches - dependencies, assumed; same-tick rewrites not decided.',
+        'contract-based deductive verification (PyVC) + AST obligations; thin by nature (see level_note)',
+        'DESIGN.md 6/C09'),
 }
 
 NOT_APPLICABLE = {
